@@ -286,6 +286,16 @@ func (b *c11Batch) checkCallers(stage string) (relaid int) {
 	return relaid
 }
 
+// c11HasSharedChunk reports whether some chunk of the structure string holds >= 2 samples.
+func c11HasSharedChunk(shape string) bool {
+	for _, f := range strings.Fields(shape) {
+		if i := strings.LastIndexByte(f, ':'); i >= 0 && f[i+1:] != "1" && f[i+1:] != "0" {
+			return true
+		}
+	}
+	return false
+}
+
 func c11Trim(stack string) string {
 	if len(stack) > 1500 {
 		return stack[:1500]
@@ -294,7 +304,7 @@ func c11Trim(stack string) string {
 }
 
 type c11Stats struct {
-	cases, multiChunk, relaid, mmapped atomic.Int64
+	cases, multiChunk, shared, relaid, mmapped atomic.Int64
 }
 
 // run executes the batch: append, read from the head, m-map, read, compact into a block, read.
@@ -453,6 +463,9 @@ func (b *c11Batch) run(st *c11Stats, shapes func(string)) {
 			if strings.Count(b.chunkShape[k], ":") > 1 {
 				st.multiChunk.Add(1)
 			}
+			if c11HasSharedChunk(b.chunkShape[k]) {
+				st.shared.Add(1)
+			}
 			shapes(b.chunkShape[k])
 		}
 	}
@@ -562,20 +575,21 @@ func TestVerifC11b(t *testing.T) {
 	if r.Quick() {
 		phases = []c11Phase{
 			{"full", 1, c11Cfgs(1, apis, nil, both)},
-			{"full", 2, c11Cfgs(2, apis, nil, both)},
-			{"small", 3, c11Cfgs(3, apis, nil, both)},
-			{"one", 3, []c11Cfg{{API: 0, Mask: 0}, {API: 1, Mask: 3, OneTxn: true}}},
+			{"full", 2, c11Cfgs(2, apis, nil, []bool{false})},
+			{"small", 3, append(c11Cfgs(3, []int{0}, nil, []bool{false}), c11Cfgs(3, []int{1}, nil, []bool{true})...)},
+			{"one", 3, []c11Cfg{{API: 0, Mask: 0}, {API: 1, Mask: 2, OneTxn: true}}},
 		}
 	} else {
 		phases = []c11Phase{
 			{"full", 1, c11Cfgs(1, apis, nil, both)},
 			{"full", 2, c11Cfgs(2, apis, nil, both)},
 			{"small", 3, c11Cfgs(3, apis, nil, both)},
-			{"full", 3, append(c11Cfgs(3, []int{0}, nil, []bool{false}), c11Cfg{API: 1, Mask: 0, OneTxn: true}, c11Cfg{API: 1, Mask: 3})},
-			{"small", 4, append(c11Cfgs(4, []int{0}, nil, []bool{false}), c11Cfg{API: 1, Mask: 0, OneTxn: true}, c11Cfg{API: 1, Mask: 7})},
+			{"full", 3, []c11Cfg{{API: 0, Mask: 0}, {API: 1, Mask: 2, OneTxn: true}}},
+			{"one", 3, []c11Cfg{{API: 0, Mask: 1}, {API: 0, Mask: 2}, {API: 0, Mask: 3}, {API: 1, Mask: 0}}},
+			{"small", 4, []c11Cfg{{API: 0, Mask: 0}, {API: 0, Mask: 2}, {API: 0, Mask: 5}, {API: 1, Mask: 7, OneTxn: true}}},
 		}
 	}
-	const batchSize = 512
+	const batchSize = 4096
 	type job struct {
 		ph       int
 		from, to int64
@@ -629,16 +643,17 @@ func TestVerifC11b(t *testing.T) {
 		desc = append(desc, fmt.Sprintf("%s alphabet (%d atoms) length %d x %d configurations: %s", ph.alpha, len(alphas[ph.alpha]), ph.n, len(ph.cfgs), state))
 	}
 	r.Count("evaluations", int(st.cases.Load()))
-	r.Count("distinct_nontrivial", int(st.multiChunk.Load()))
+	r.Count("distinct_nontrivial", int(st.shared.Load()))
+	r.Count("head_cases_with_a_chunk_of_several_samples", int(st.shared.Load()))
 	r.Count("head_cases", int(st.cases.Load()))
 	r.Count("head_cases_stored_in_several_chunks", int(st.multiChunk.Load()))
 	r.Count("head_cases_with_mmapped_chunks", int(st.mmapped.Load()))
 	r.Count("head_cases_with_backward_insert_into_caller_histogram", int(st.relaid.Load()))
 	r.Set("phases_head", desc)
 	r.Set("depth_completed_head", completed)
-	r.Set("rule_head", "parts (b)-(d): every sequence of atoms of the stated alphabets and lengths is one series of a real Head (chunk range 1000, 512 series per Head), under every listed configuration (Appender + plain encodings or AppenderV2 with start timestamps + ST-capable encodings; a chunk-range boundary before any subset of the samples; one commit per position or a single transaction). Each series is read through the sample querier (fresh objects, kept until the series is exhausted) and the chunk querier (recycled iterator and object, all samples as float histograms) from the head, again after Head.mmapHeadChunks, and from the block written by LeveledCompactor.Write of the head and re-opened from disk; compared with histmodel at every timestamp; the caller's objects are re-decoded at the end. distinct_nontrivial counts the enumerated (sequence, configuration) cases whose series ended up in more than one chunk (cut by time, by encoding change or by the chunk appender).")
+	r.Set("rule_head", "parts (b)-(d): every sequence of atoms of the stated alphabets and lengths is one series of a real Head (chunk range 1000, up to 4096 series per Head), under every listed configuration (Appender + plain encodings or AppenderV2 with start timestamps + ST-capable encodings; a chunk-range boundary before any subset of the samples; one commit per position or a single transaction). Each series is read through the sample querier (fresh objects, kept until the series is exhausted) and the chunk querier (recycled iterator and object, all samples as float histograms) from the head, again after Head.mmapHeadChunks, and from the block written by LeveledCompactor.Write of the head and re-opened from disk; compared with histmodel at every timestamp; the caller's objects are re-decoded at the end. distinct_nontrivial counts the enumerated (sequence, configuration) cases (distinct by construction) in which the head kept at least two samples in one chunk, i.e. an appendable/recode decision came out as same-chunk; cases stored in several chunks, with m-mapped chunks and with empty buckets inserted into the caller's object are counted separately.")
 	r.Set("rule", "parts (b)-(d): see rule_head")
-	if st.cases.Load() > 0 && (st.multiChunk.Load() == 0 || st.mmapped.Load() == 0 || st.relaid.Load() == 0) {
+	if !r.Expired() && (st.shared.Load() == 0 || st.multiChunk.Load() == 0 || st.mmapped.Load() == 0 || st.relaid.Load() == 0) {
 		t.Fatalf("vacuous: multi-chunk=%d mmapped=%d caller re-laid out=%d", st.multiChunk.Load(), st.mmapped.Load(), st.relaid.Load())
 	}
 }
